@@ -374,7 +374,7 @@ def check_case(case, ctx):
 def gen_case(rng, spec):
     shape = rng.choice(netgen.SHAPES)
     net = netgen.rand_net(rng, shape=shape, max_in=6, max_g=spec.get('max_g', 14), max_arity=spec.get('max_arity', 4),
-                          label_style=rng.choice(['plain', 'plain', 'digits', 'at', 'keyword']))
+                          label_style=rng.choice(['plain', 'plain', 'digits', 'at', 'keyword', 'derived']), p_wide=0.05)
     return {'kind': 'random', 'shape': shape, 'net': netgen.describe(net), 'rseed': rng.getrandbits(32),
             'shuffle': rng.random() < 0.3}
 
@@ -487,7 +487,7 @@ def run_tables(ctx):
     n_checked = 0
     for t in netgen.ALL_GATE_TYPES:
         if t in refsem.NARY:
-            arities = [2, 3, 4]
+            arities = [2, 3, 4, 9]
         elif t in refsem.BINARY_ONLY:
             arities = [2]
         elif t in refsem.UNARY:
@@ -583,7 +583,7 @@ def run_tables(ctx):
     k = 0
     for t in netgen.ALL_GATE_TYPES:
         if t in refsem.NARY:
-            arities = [2, 3, 4]
+            arities = [2, 3, 4, 5, 8, 9, 10, 12]   # incl. sizes beyond the usual small-test range
         elif t in refsem.BINARY_ONLY:
             arities = [2]
         elif t in refsem.UNARY:
@@ -592,10 +592,12 @@ def run_tables(ctx):
             arities = [0, 2]
         for ar in arities:
             c = Circuit()
-            ins = ['i%d' % i for i in range(max(ar, 1))]
+            ins = ['i%d' % i for i in range(max(min(ar, 5), 1))]
             for i in ins:
                 c.emplace_gate(i, gate.INPUT)
-            c.emplace_gate('g', gt[t], tuple(ins[:ar]))
+            # wide gates repeat their (at most five) inputs
+            gate_ops = tuple(ins[j % len(ins)] for j in range(ar))
+            c.emplace_gate('g', gt[t], gate_ops)
             c.set_outputs(['g'])
             cnf = ts.tseytin_transformation(c).get_raw()
             body = [cl for cl in cnf]
@@ -607,7 +609,7 @@ def run_tables(ctx):
                 k += 1
                 assum = [(i + 1) if v else -(i + 1) for i, v in enumerate(vals)]
                 models = satref.count_models(body, [abs(glit)], assumptions=assum)
-                want = refsem.op_scalar(t, vals[:ar])
+                want = refsem.op_scalar(t, [vals[j % len(ins)] for j in range(ar)])
                 ctx.case('ts:%s/%d:%r' % (t, ar, vals), True)
                 got = sorted(m[abs(glit)] for m in models)
                 if got != [want]:
